@@ -123,6 +123,7 @@ class ElemKind(object):
             self._tie(ctx, r, sname, fname, fld, cur)
         obj.ref = r
         obj.frozen = True
+        obj.elem_kind = self
         ctx.elem_cache.setdefault(self.name, {})[r.get_id()] = (r, obj)
         return r
 
